@@ -208,6 +208,13 @@ def service_probe(sc, limit, ctx):
         key = f"worker-thread-terminated-abnormally:{tkind or name.split()[0]}:{exc.split('(')[0]}"
         if not any(k == key for k, _ in vs):
             vs.append((key, f"{name}: {exc} (during the probe)"))
+    # capacity: every connection owns two worker threads; connections the node no longer lists must not have any left (all of them
+    # ended at least 9 s ago, the workers' poll interval is 5 s)
+    workers = [t.kind for t in nw.world.live_threads() if t.kind in ("work_read_queue", "work_write_queue")]
+    listed = len(nw.node.connections)
+    if len(workers) > 2 * listed:
+        vs.append(("capacity:worker-threads-of-ended-connections-still-running",
+                   f"{len(workers)} connection worker threads alive, the node lists {listed} connection(s)"))
     return vs
 
 
